@@ -69,6 +69,38 @@ def _first_generic(t):
     return inner.strip()
 
 
+DEFAULT_ADTS = {}
+
+
+def field_ty(t, proj):
+    """type reached from type t through a projection made of struct fields (.N) and enum payloads"""
+    cur = strip_ty(t)
+    proj = [p for p in proj if p != '*']
+    i = 0
+    while i < len(proj):
+        p = proj[i]
+        if p.startswith('.'):
+            adt = DEFAULT_ADTS.get(ty_head(cur))
+            if not adt or len(adt['variants']) != 1:
+                return None
+            k = int(p[1:])
+            fs = adt['variants'][0]['fields']
+            if k >= len(fs):
+                return None
+            cur = strip_ty(fs[k][1])
+            i += 1
+            continue
+        if p.startswith('as '):
+            rest = peel_payload(cur, proj[i:i + 2] if i + 1 < len(proj) and proj[i + 1] == '.0' else proj[i:i + 1])
+            if rest is None:
+                return None
+            cur = rest
+            i += 2 if i + 1 < len(proj) and proj[i + 1] == '.0' else 1
+            continue
+        return None
+    return cur
+
+
 def peel_payload(t, proj):
     """type of  (x as Ready/Some/Ok).0  for x: Poll<T>/Option<T>/Result<T,E>; None if not recognised"""
     cur = strip_ty(t)
@@ -348,6 +380,7 @@ class Program:
                 self.bodies[k] = v
                 self.crate_of[k] = c
             self.adts.update(cr['adts'])
+            DEFAULT_ADTS.update(cr['adts'])
             self.statics.update(cr['statics'])
             self.impls.extend(cr['impls'])
         self._fn = {}
@@ -757,7 +790,7 @@ class Engine:
             bt = self.value_ty(v[1])
             if bt is None:
                 return None
-            return peel_payload(bt, v[2])
+            return peel_payload(bt, v[2]) or field_ty(bt, v[2])
         return None
 
     def norm_discr(self, inner):
